@@ -4,7 +4,7 @@ From Coq Require Import NArith List.
 From Coq Require Extraction.
 From Coq Require Import ExtrOcamlBasic.
 From Gen Require Import OpcodeSig.
-From C03 Require Import Bytecode_C03 DeepBytecode_C03 DeepLocators_C03.
+From C03 Require Import Bytecode_C03 DeepBytecode_C03 DeepLocators_C03 DeepMerge_C03.
 Extraction Language OCaml.
 Set Extraction Optimize.
 Extraction "../ocaml/C03/_build/c03_model.ml"
@@ -13,4 +13,5 @@ Extraction "../ocaml/C03/_build/c03_model.ml"
   opcode_of_byte opcode_name opcode_sig opcode_fields opcode_ret all_opcodes roles regs_of
   HANDLER_TRUNCATES_STACK HANDLER_TRUNCATES_BINDINGS
   verify2 infer_full2 succs_tagged2 aget2 entry_depth2 iter_norm iter_exc needs_iter at_stack_empty in_drain
-  verify3 locators_ok locator_ok binds_of scope_of.
+  verify3 locators_ok locator_ok binds_of scope_of
+  verify4 nonstack_agree same_nonstack agree.
